@@ -232,6 +232,30 @@ def invalid_name_cases():
                 except Exception as e:
                     return '%s with %s=%r raised %s instead of MarshallingError' % (cls, f, v, type(e).__name__)
                 return '%s with the invalid %s %r was constructed' % (cls, f, v)
+    # the verdict on a name depends on the FIELD it is used in, not on what was accepted or refused before: a string that is valid in
+    # one field is used there first, then tried where it is not valid (and the other way round: refused first, then used validly)
+    cross = {':1.42': ('destination',), 'com.example.my-service': ('destination',), 'a.b': ('interface', 'destination', 'error_name'),
+             'Member': ('member',), '/a/b': ('path',), 'a.b-c': ('destination',), '/': ('path',), 'a._1': ('interface', 'destination', 'error_name')}
+    for order in ('valid-first', 'invalid-first'):
+        for v, valid_in in cross.items():
+            for cls, fields in takes.items():
+                good = [f for f in fields if f in valid_in]
+                for f in fields:
+                    if f in valid_in:
+                        continue
+                    steps = ([(g, True) for g in good] + [(f, False)]) if order == 'valid-first' else ([(f, False)] + [(g, True) for g in good])
+                    for fld, ok in steps:
+                        try:
+                            mk[cls](**{fld: v})
+                            made = True
+                        except MarshallingError:
+                            made = False
+                        except Exception as e:
+                            return '%s with %s=%r raised %s instead of MarshallingError' % (cls, fld, v, type(e).__name__)
+                        if made != ok:
+                            return ('%s with %s=%r %s (order %s: the same string was %s as %s just before)'
+                                    % (cls, fld, v, 'was constructed although the name is not valid there' if made else 'was refused although the name is valid there',
+                                       order, 'accepted' if order == 'valid-first' else 'refused', ', '.join(x for x, _ in steps if x != fld) or 'nothing'))
     return None
 
 
